@@ -110,10 +110,11 @@ def run_case(case, acc, order):
                         with core.time_limit(5):
                             ids_arg = ids if ids is None else [list(ids), np.array(ids, dtype=np.int64),
                                                                tuple(ids)][(b + half + sym) % 3]
-                            ckw = {} if sym else {'symmetrize': False}     # True is the default
-                            if ids_arg is not None:
+                            expl = (b + half) % 2 == 1      # defaults passed explicitly in one half
+                            ckw = {} if (sym and not expl) else {'symmetrize': sym}     # True is the default
+                            if ids_arg is not None or expl:
                                 ckw['cluster_ids'] = ids_arg
-                            if rate != 1.0:
+                            if rate != 1.0 or expl:
                                 ckw['sample_rate'] = rate                   # 1.0 is the default
                             got = correlograms(times, labels_arr, bin_size=bin_size, window_size=window,
                                                **ckw)
